@@ -60,6 +60,22 @@ def to_py_col(k):
     return atom_py(k)
 
 
+ROWONLY = 'ROWONLY'
+
+
+def idx(obj, rk, ck):
+    """obj[rows, channels], or obj[rows] when the key has no channel part"""
+    if ck['t'] == 'rowonly':
+        return obj[to_py_row(rk)]
+    return obj[to_py_row(rk), to_py_col(ck)]
+
+
+def pidx(arr, rk, pc):
+    if pc == ROWONLY:
+        return arr[to_py_row(rk)]
+    return arr[to_py_row(rk), pc]
+
+
 def plain_col(k, names):
     """Independent translation of a channel key to what plain array indexing needs (None = must be refused)."""
     def at(a):
@@ -69,6 +85,8 @@ def plain_col(k, names):
             return a['v'] if -len(names) <= a['v'] < len(names) else None
         return 'other'
     t = k['t']
+    if t == 'rowonly':
+        return ROWONLY
     if t == 'slice':
         return slice(*k['v'])
     if t == 'ellipsis':
@@ -171,7 +189,19 @@ class Prop(common.PropertyCheck):
             for rk in rp:
                 for ck in cp:
                     yield {'N': N, 'D': D, 'keys': [[rk, ck]]}
+        # event keys alone (no channel part): masks as arrays and as Python lists, position lists, slices, single positions
+        for N, D in shapes:
+            for rk in self.row_pool(N, small):
+                yield {'N': N, 'D': D, 'keys': [[rk, {'t': 'rowonly'}]]}
+                if rk['t'] == 'mask':
+                    yield {'N': N, 'D': D, 'keys': [[dict(rk, np=False), {'t': 'rowonly'}]]}
         rng = self.rng
+        for _ in range(self.budget(600, 8000)):
+            N, D = rng.randrange(1, 9), rng.randrange(1, 6)
+            keys = [[self.rand_row(N), {'t': 'rowonly'}]]
+            if rng.random() < 0.4:
+                keys.append([{'t': 'slice', 'v': [None, None, None]}, self.rand_col(D)])
+            yield {'N': N, 'D': D, 'keys': keys, 'set': rng.random() < 0.3}
         for _ in range(self.budget(4000, 60000)):
             N, D = rng.randrange(1, 7), rng.randrange(1, 6)
             yield {'N': N, 'D': D, 'keys': [[self.rand_row(N), self.rand_col(D)]], 'set': rng.random() < 0.3}
@@ -234,7 +264,7 @@ class Prop(common.PropertyCheck):
             for rk, ck in case['keys']:
                 if not isinstance(cur, FlowCal.io.FCSData) or cur.ndim != 2:
                     return {'skip': 'intermediate result is not a 2-D sample'}
-                cur = cur[to_py_row(rk), to_py_col(ck)]
+                cur = idx(cur, rk, ck)
         except Exception as e:
             return {'err': type(e).__name__, 'msg': str(e)[:80]}
         out = self.fingerprint(cur, parent, D)
@@ -247,7 +277,7 @@ class Prop(common.PropertyCheck):
             out['plain'] = None
             if pc is not None and pc != 'other':
                 try:
-                    pv = np.asarray(parent)[to_py_row(rk), pc]
+                    pv = pidx(np.asarray(parent), rk, pc)
                     out['plain'] = {'shape': list(np.shape(pv)), 'cells': [[int(v) // D, int(v) % D] for v in np.ravel(pv)]}
                 except Exception as e:
                     out['plain'] = {'err': type(e).__name__}
@@ -255,7 +285,10 @@ class Prop(common.PropertyCheck):
                 w = parent.copy()
                 before = np.asarray(w).copy()
                 try:
-                    w[to_py_row(rk), to_py_col(ck)] = 65535
+                    if ck['t'] == 'rowonly':
+                        w[to_py_row(rk)] = 65535
+                    else:
+                        w[to_py_row(rk), to_py_col(ck)] = 65535
                     changed = sorted([int(r), int(c)] for r, c in zip(*np.nonzero(np.asarray(w) != before)))
                     out['set_changed'] = changed
                     out['set_meta_same'] = (w.channels == parent.channels and w.range() == parent.range())
@@ -279,8 +312,10 @@ class Prop(common.PropertyCheck):
                     return {'refuse': True}
                 if pc == 'other':
                     return None
-                arr = arr[to_py_row(rk), pc]
-                if isinstance(pc, (list, slice)):
+                arr = pidx(arr, rk, pc)
+                if pc == ROWONLY:
+                    pass
+                elif isinstance(pc, (list, slice)):
                     names = list(np.array(names, dtype=object)[pc]) if not isinstance(pc, list) or pc else []
                 elif pc is Ellipsis:
                     pass
@@ -333,7 +368,7 @@ class Prop(common.PropertyCheck):
                 # a key of the grammar that plain indexing accepts must not be refused
                 if pc is not None and pc != 'other':
                     try:
-                        np.zeros((case['N'], case['D']))[to_py_row(rk), pc]
+                        pidx(np.zeros((case['N'], case['D'])), rk, pc)
                     except Exception:
                         return None
                     return 'valid key %s refused with %s (%s)' % (case['keys'][0], impl['err'], impl.get('msg'))
@@ -376,6 +411,8 @@ class Prop(common.PropertyCheck):
         if len(case['keys']) != 1 or impl.get('skip'):
             return None
         rk, ck = case['keys'][0]
+        if ck['t'] == 'rowonly':
+            ck = {'t': 'slice', 'v': [None, None, None]}      # an event key alone selects every channel
         return {'op': 'getitem', 'names': ['ch%d' % c for c in range(case['D'])], 'n': case['N'], 'row': rk, 'col': ck}
 
     def compare(self, case, impl, model):
